@@ -1,19 +1,22 @@
 """C20 - each input file contributes exactly the HDU and WCS solution the user selected.
 
-Spec: spec/Collection.tla.  TLC enumerates every collection (1..MaxFiles input paths over a set of file
-layouts: empty primary, image HDUs, a binary table, alternate WCS keys) x every in-scope hdu_index
+Spec: spec/Collection.tla.  TLC enumerates every collection (a SEQUENCE of 1..MaxFiles input paths over a set
+of physical files - so the same file may be named at several list positions -; files: empty primary, image
+HDUs, a binary table, alternate WCS keys) x every in-scope hdu_index
 (none / one / per-file list) x every in-scope wcs_key (none / one / per-file list), explores the two
 generators descriptions() / images() under every interleaving and checks the property's sentences as
 invariants (ScalarAppliesToAll, ListIsPositional, NoneIsFirstImage, ExactSelection, InInputOrder,
+EveryInputContributes, RepeatsAreIndependent - all stated over list positions, not over distinct files -,
 DescriptionsMatchImages, CliFaithful, ListIsLocal, KeyListIsLocal, CaseInScope) plus the theorems GuessIsFirstImage (the for/break loop
 finds the first image HDU, for every layout of up to 4 HDUs), CaseSpaceComplete (the generated cases are exactly the
 in-scope selections, collections of up to 2 files) and EncodingInjective/EncodingKeys (the
 observation encoding tells every (file, HDU, key) apart).  TLC also emits (a) the table of FITS files to
-write - shape, constant pixel value and CRPIX encode (file position, HDU), CRVAL encodes the WCS key - and
+write - shape, constant pixel value and CRPIX encode (physical file, HDU), CRVAL encodes the WCS key - and
 (b) for every case the expected (hdu, shape, value, key, crval, crpix) per input path and the tokens of the
 command-line spelling.
 
-Binding (spec -> code): the harness writes the files exactly as TLC says and pushes every case through the
+Binding (spec -> code): the harness writes the files exactly as TLC says, names a file that occurs at several
+positions by the same path (or by another spelling of it) and pushes every case through the
 real code by way of collection.load, SimpleFitsCollection, the `toasty view` command line (real argparse
 + CollectionLoader.create_from_args; the tiler is replaced by a recorder) and toasty.tile_fits (same
 recorder), then compares descriptions(), images() and export_simple() with TLC's expectation.  A few
@@ -439,7 +442,8 @@ def run(ctx):
             idx = len(jobs)
             n = len(rec["lay"])
             if name == "five3" and n < 3:
-                ents = ENTRIES                                  # every entry point
+                # every entry point (quick tier: two of the four, alternating pairs)
+                ents = (ENTRIES[idx % 4], ENTRIES[(idx + 2) % 4]) if ctx.quick else ENTRIES
             elif ctx.quick:
                 # quick tier: the 3-file cases are replayed as a stratified subset (every k-th of each form class)
                 cls = (rec["hs"]["form"], rec["ks"]["form"])
